@@ -242,7 +242,11 @@ after the handshake is exactly ONE section `out.Lock(); <record loop>; out.Unloc
 every transport write is guarded (see `emitsGuarded`), every consumption of plaintext input
 happens under `in`; the Write-like calls enter through the `activeCall` CAS loop and Close
 sets the bit once; handshakeContext re-checks under the mutex and is the only caller of
-handshakeFn and the only writer of handshakeErr; pa's `wrapped` is never read outside `lock`. -/
+handshakeFn and the only writer of handshakeErr; Close wipes the work key (owned by the
+handshake) only under handshakeMutex; pa's `wrapped` is never read outside `lock`.  The last two
+are about plain field accesses, which the lock model does not cover: they pin the shape of the
+repairs F46 / F20 so that a regression also moves a fact, but the evidence for them is the race
+detector. -/
 theorem C13_facts :
     Facts.tlcp.lockNames = ["Conn.handshakeMutex", "Conn.in", "Conn.out"] ∧
     Facts.dtlcp.lockNames = ["Conn.handshakeMutex", "Conn.in", "Conn.out"] ∧
@@ -262,6 +266,8 @@ theorem C13_facts :
     Facts.dtlcp.handshakeFnCallSites = ["Conn.handshakeContext"] ∧
     Facts.tlcp.handshakeErrWriters = ["Conn.handshakeContext"] ∧
     Facts.dtlcp.handshakeErrWriters = ["Conn.handshakeContext"] ∧
+    Facts.tlcp.closeWipesKeyUnderHandshakeMutex = true ∧
+    Facts.dtlcp.closeWipesKeyUnderHandshakeMutex = true ∧
     Facts.pa.wrappedAccessUnlocked = [] ∧
     Facts.missing = [] := by
   decide
